@@ -1,2 +1,164 @@
-(* Properties/C12.v -- placeholder while the proofs are being written *)
-From Verif Require Import Layout.Paginate Layout.PaginateSpec.
+(* Properties/C12.v -- Pages have the declared geometry and break where CSS allows.
+
+   Theorem statements only; proofs are in Layout/PaginateProofs.v.
+   Model: Layout/Paginate.v.  Specification: Layout/PaginateSpec.v.
+
+   Reading guide.  A document `d` is linearised to its content units
+   `us := lin_flows (d_flow d)` (lines and fixed-height boxes).  A pagination is a
+   list of content pages (state, s, e) -- the page made in page-maker state
+   `state` holds units s .. e-1 -- from which `paginate` renders the final page
+   list (blank pages, page types, geometry, counters).  `css` selects the reading
+   of "change of named page": true = CSS Page 3. *)
+From Verif Require Import Layout.Paginate Layout.PaginateSpec Layout.PaginateProofs.
+From Coq Require Import List ZArith NArith QArith Arith.
+Import ListNotations.
+Local Open Scope nat_scope.
+
+(* --- every predicate of the property text holds of the model's pages, for every
+   document (flows of blocks / paragraphs / boxes x @page rule sets x break values
+   x orphans / widows): no forced break inside a page; content overflows a page only
+   if no earlier legal break exists on it; a page ends early only at a forced break
+   or because the content up to the next legal break does not fit; avoid / orphans /
+   widows are honoured whenever a conforming break exists. *)
+Theorem C12_paginate_satisfies_spec : forall (css : bool) (d : doc),
+  let us := lin_flows (d_flow d) in
+  pagination_ok pstate (length us) (forced_at css us) (allowed_at us) (fits_doc css d us)
+    (next_pstate css (d_rtl d) us) (init_pstate d) (paginate_ranges css d).
+Proof. exact paginate_satisfies_spec. Qed.
+Print Assumptions C12_paginate_satisfies_spec.
+
+(* --- uniqueness (partial: licenses equality with the model on this class only).
+   Full statement: the predicates determine the pagination whenever a conforming
+   break exists at every page start of *some* pagination satisfying them. *)
+Definition C12_paginate_unique_statement : Prop := forall (css : bool) (d : doc),
+  let us := lin_flows (d_flow d) in
+  forall ps ps',
+    pagination_ok pstate (length us) (forced_at css us) (allowed_at us) (fits_doc css d us)
+      (next_pstate css (d_rtl d) us) (init_pstate d) ps ->
+    pagination_ok pstate (length us) (forced_at css us) (allowed_at us) (fits_doc css d us)
+      (next_pstate css (d_rtl d) us) (init_pstate d) ps' ->
+    ps = ps'.
+
+(* proved: on the class "non-negative metrics, and wherever a page of ps starts
+   some legal break fits" (no conflicting avoid constraints, every unit shorter
+   than its page) a pagination satisfying the predicates is the model's *)
+Theorem C12_paginate_unique_partial : forall (css : bool) (d : doc),
+  let us := lin_flows (d_flow d) in
+  Forall wf_unit us ->
+  forall ps,
+    pagination_ok pstate (length us) (forced_at css us) (allowed_at us) (fits_doc css d us)
+      (next_pstate css (d_rtl d) us) (init_pstate d) ps ->
+    Forall (conforming_exists pstate (length us) (forced_at css us) (allowed_at us) (fits_doc css d us)) ps ->
+    ps = paginate_ranges css d.
+Proof. exact paginate_unique_partial. Qed.
+Print Assumptions C12_paginate_unique_partial.
+
+(* --- page selectors: pageTypeMatch is the CSS Page 3 matching relation, with
+   :nth(an+b) as "exists k >= 0, index + 1 = a k + b" although the code computes
+   with Go's truncating / and % *)
+Theorem C12_page_type_match_spec : forall s p,
+  page_type_match s p = true <-> page_type_match_spec s p.
+Proof. exact page_type_match_correct. Qed.
+Print Assumptions C12_page_type_match_spec.
+
+(* --- @page cascade: for each property the value used is that of a declaration of
+   maximal (origin/importance, specificity) weight among those whose selector
+   matches the page, the last such in source order *)
+Theorem C12_page_cascade_spec : forall rules pt p,
+  cascade_winner (applicable rules pt) p (cascaded rules pt p).
+Proof. exact page_cascade_correct. Qed.
+Print Assumptions C12_page_cascade_spec.
+
+Theorem C12_page_declarations_applicable : forall rules pt w d,
+  In (w, d) (applicable rules pt) <->
+  exists r s, In r rules /\ In s (r_sels r) /\ page_type_match s pt = true /\
+              In d (r_decls r) /\ w = weight_of s d.
+Proof. exact applicable_in. Qed.
+Print Assumptions C12_page_declarations_applicable.
+
+(* --- page box geometry: per axis the block-width-like equation (margin + padding
+   + inner + margin = size unless all three are specified; auto inner fills with
+   auto margins zero; two auto margins centre; one auto margin absorbs the rest),
+   solved again with the clamped size when min / max apply *)
+Theorem C12_page_geometry_spec : forall cb pb inner ma mb mn mx,
+  exists inner', (inner' = inner \/ (exists m, mx = Some m /\ inner' = Some m) \/ inner' = Some mn) /\
+                 axis_spec cb pb inner' ma mb (axis_minmax cb pb inner ma mb mn mx).
+Proof. exact page_geometry_axes. Qed.
+Print Assumptions C12_page_geometry_spec.
+
+(* --- break classification: the fold over the `choices` table computes the CSS
+   priority (side values: the latest wins; then page / column; then avoid; then auto) *)
+Theorem C12_break_class_table_correct : forall vs, block_level_page_break vs = brk_spec vs.
+Proof. exact break_class_table_correct. Qed.
+Print Assumptions C12_break_class_table_correct.
+
+(* --- page sequence: sides alternate from the first page's side, index = position,
+   :first only on page 0, a blank page exactly before content that asked for the
+   other side, names from the content that starts the page *)
+Theorem C12_forced_break_page_sequence : forall (css : bool) (d : doc),
+  lin_flows (d_flow d) <> [] ->
+  exists infos,
+    map pi_type infos = map pg_type (paginate css d) /\
+    page_seq_ok (first_page_right (d_rtl d) (d_root_bb d)) 0 infos.
+Proof. exact paginate_page_seq. Qed.
+Print Assumptions C12_forced_break_page_sequence.
+
+(* --- counter(page) = position, counter(pages) = total, on every page *)
+Theorem C12_counters_ok : forall css d, counters_ok (paginate css d).
+Proof. exact paginate_counters. Qed.
+Print Assumptions C12_counters_ok.
+
+(* --- progress and termination (used by C01): every content page places at least
+   one unit; pages <= units, and with blank pages <= 2 * units *)
+Theorem C12_paginate_progress : forall css d,
+  Forall (fun p : pstate * nat * nat => let '(_, a, e) := p in a < e) (paginate_ranges css d).
+Proof. exact paginate_progress. Qed.
+Print Assumptions C12_paginate_progress.
+
+Theorem C12_paginate_terminates : forall css d,
+  length (paginate_ranges css d) <= length (lin_flows (d_flow d)) /\
+  length (paginate css d) <= Nat.max 1 (2 * length (lin_flows (d_flow d))).
+Proof. intros css d. split. exact (paginate_terminates css d). exact (paginate_length css d). Qed.
+Print Assumptions C12_paginate_terminates.
+
+(* the result of the model does not depend on the fuel once it covers the flow *)
+Theorem C12_fuel_irrelevant : forall St n forced allowed fits next_st fuel fuel' (st : St) s,
+  s <= n -> n - s <= fuel -> n - s <= fuel' ->
+  paginate_from St n forced allowed fits next_st fuel st s =
+  paginate_from St n forced allowed fits next_st fuel' st s.
+Proof. exact paginate_from_fuel_irrelevant. Qed.
+Print Assumptions C12_fuel_irrelevant.
+
+(* --- the boolean procedures Check/C12.v evaluates on the implementation's pages
+   decide the predicates *)
+Theorem C12_deciders_sound : forall St n forced allowed fits (p : St * nat * nat),
+  (forced_inside_free_b St forced p = true <-> forced_inside_free St forced p) /\
+  (no_avoidable_overflow_b St allowed fits p = true <-> no_avoidable_overflow St allowed fits p) /\
+  ((let '(_, s, e) := p in s < e /\ e <= n) ->
+   (no_early_end_b St n forced allowed fits p = true <-> no_early_end St n forced allowed fits p)) /\
+  ((let '(_, s, e) := p in s < e /\ e <= cap n forced s /\ s < n) ->
+   (soft_if_possible_b St n forced allowed fits p = true <-> soft_if_possible St n forced allowed fits p)) /\
+  ((let '(_, s, _) := p in s < n) ->
+   (conforming_exists_b St n forced allowed fits p = true <-> conforming_exists St n forced allowed fits p)).
+Proof.
+  intros. split; [apply forced_inside_free_b_spec|]. split; [apply no_avoidable_overflow_b_spec|].
+  split; [apply no_early_end_b_spec|]. split; [apply soft_if_possible_b_spec|apply conforming_exists_b_spec].
+Qed.
+Print Assumptions C12_deciders_sound.
+
+(* the vertical extent of a page grows with its content (non-negative metrics):
+   the candidates that fit form an initial segment *)
+Theorem C12_extent_monotone : forall keep us s e e',
+  Forall wf_unit us -> e <= e' -> (extent keep us s e <= extent keep us s e')%Z.
+Proof. exact extent_mono. Qed.
+Print Assumptions C12_extent_monotone.
+
+(* --- the hypotheses are inhabited: a two-page document with a forced recto break *)
+Example C12_example :
+  let d := mkDoc false BAuto
+             [mkRule [mkSel 0 0 false false None] [mkDecl PSize (VSize 180 120)%Q false;
+                                                    mkDecl PMarginTop (VPx 10%Q) false; mkDecl PMarginBottom (VPx 10%Q) false]]
+             [Para 2 20 1 1; Blk 0 0 0 0 BAuto BAuto BAvoid 0 [Mono 30; Blk 0 0 0 0 BRecto BAuto BAuto 0 [Para 3 20 1 1]]] in
+  map (fun p => (p_side (pg_type p), p_blank (pg_type p), pg_units p, pg_counter p, pg_pages p)) (paginate true d)
+  = [(2%N, false, [0; 1; 2], 1%N, 3%N); (1%N, true, [], 2%N, 3%N); (2%N, false, [3; 4; 5], 3%N, 3%N)].
+Proof. vm_compute. reflexivity. Qed.
